@@ -11,9 +11,9 @@ REPO = Path(os.environ.get("VERIF_REPO", "/repo")).resolve()
 GUARD = "FURADNIK_INCOMPLETECOOPERATIVE_VERIF"
 PYTHON = "/venv/bin/python"
 
-EVIDENCE_DIR = ROOT / "evidence"
-REPLAY_DIR = ROOT / "replays"
-WORK_DIR = ROOT / ".work"
+EVIDENCE_DIR = Path(os.environ.get("VERIF_EVIDENCE_DIR", ROOT / "evidence"))
+REPLAY_DIR = Path(os.environ.get("VERIF_REPLAY_DIR", ROOT / "replays"))
+WORK_DIR = Path(os.environ.get("VERIF_WORK_DIR", ROOT / ".work"))
 KNOWN_FINDINGS = ROOT / "KNOWN_FINDINGS.txt"
 EVIDENCE_SCHEMA = Path("/root/.vp/EVIDENCE.schema.json")
 
